@@ -125,6 +125,15 @@ SCENARIOS = collections.OrderedDict([
     ("init-terminate", ("raw", [{"api": "initialize"}, {"api": "terminate"}], "thorough")),
     ("shared-manager", ("raw", [{"api": "initialize"}, CREATE, T({"text": XML_SMALL}, {"text": XSL_SMALL}), DESTROY, {"api": "terminate"}], "thorough")),
 ])
+# run-time failing transformations: one stylesheet per failure SITE (corpus/c19/rtfail-<site>.xsl), each failing while
+# temporaries of a different instruction are alive; balanced use must hold on every one of them (k = 0) and under
+# every refused request
+RTFAIL_STRIDE_QUICK = 37
+for _f in sorted(os.listdir(os.path.join(ROOT, "corpus", "c19"))):
+    # rtfail-*: the transformation fails at that site; rtwarn-*: sites Xalan only warns about (or silently tolerates)
+    if (_f.startswith("rtfail-") or _f.startswith("rtwarn-")) and _f.endswith(".xsl"):
+        SCENARIOS[_f[:-4]] = ("inited", [CREATE, T({"file": "rt_in.xml"}, {"file": _f}), DESTROY], "thorough")
+
 QUICK_STRIDE = {"import-bad-element": 5, "include": 7, "include-bad-xpath": 7, "files": 9, "fail-xpath": 11, "rich": 17, "shared-manager": 53, "init-terminate": 59, "reuse": 23}   # sampled in quick
 ASAN_QUICK = {"streams": 7, "compiled-parsed": 13, "fail-message": 11, "import-bad-xpath": 5}          # scenario -> stride of k under ASan (quick)
 ASAN_THOROUGH = {"import": 3, "import-bad-xpath": 1, "import-bad-element": 3, "include-bad-xpath": 3, "streams": 1, "compiled-parsed": 1, "fail-message": 1, "rich": 3, "shared-manager": 7, "fail-parse": 3, "fail-compile": 3}
@@ -375,7 +384,45 @@ def short_name(d):
     return s
 
 
+# frames without a dynamic symbol (static functions of the library) are logged as "module+0xoffset": resolve them with the
+# module's symbol table, so that a key never contains an address
+LIB_DIRS = []          # directories of the fresh build that hold the shared libraries (set by run()/replay())
+_symtabs = {}
+
+
+def _symtab(module):
+    if module not in _symtabs:
+        tab = []
+        for d in LIB_DIRS:
+            path = os.path.join(d, module)
+            if os.path.exists(path):
+                r = subprocess.run(["nm", "--defined-only", "-n", path], capture_output=True, text=True)
+                for line in r.stdout.splitlines():
+                    f = line.split()
+                    if len(f) == 3 and f[1] in "tTwW":
+                        tab.append((int(f[0], 16), f[2]))
+                break
+        tab.sort()
+        _symtabs[module] = tab
+    return _symtabs[module]
+
+
+def resolve_frames(frames):
+    import bisect
+    out = []
+    for f in frames:
+        m = re.match(r"^(lib[\w.+-]+?)\+0x([0-9a-f]+)$", f)
+        if m and (m.group(1).startswith("libxalan-c") or m.group(1).startswith("libxalanMsg")):
+            tab = _symtab(m.group(1))
+            i = bisect.bisect_right(tab, (int(m.group(2), 16), "\x7f")) - 1
+            if i >= 0:
+                f = tab[i][1]
+        out.append(f)
+    return out
+
+
 def library_frames(frames):
+    frames = resolve_frames(frames)
     dem = demangle(frames)
     return [short_name(d) for f, d in zip(frames, dem) if re.match(r"(xalanc_\d+_\d+|xercesc_\d+_\d+)::", d) or "libxalan-c" in f or "libxerces-c" in f]
 
@@ -419,6 +466,10 @@ def classify(events, rj):
         lib = library_frames(fail.get("frames", []))
         comp = [f for f in lib if INIT_COMPONENT.search(f)]
         return "init-interrupted: " + (comp[0] if comp else "XalanTransformer::initialize")
+    if sym == "NOT-SURFACED" and fail:
+        # the refused request was swallowed by a catch-all inside an XPath function implementation
+        fn = [f for f in library_frames(fail.get("frames", [])) if re.match(r"^Function\w+::(do)?[eE]xecute$", f)]
+        return ("not-surfaced: swallowed inside " + fn[0]) if fn else None
     ev = events[rj["line"]] if rj["line"] < len(events) else {}
     if sym == "TERMINATE" and ev.get("e") == "Terminate":
         return terminate_key(ev, fail)
@@ -441,9 +492,14 @@ def run(res, tier, seed):
     exe = vlib.build_harness("c19", "hooks", **HFLAGS)
     exe_asan = vlib.build_harness("c19", "asan", **HFLAGS)
     known = {k["key"]: k for k in vlib.known_findings(PROP)}
+    bdir = os.path.dirname(exe)
+    LIB_DIRS[:] = [os.path.join(bdir, "src", "xalanc"), os.path.join(bdir, "src", "xalanc", "Utils", "XalanMsgLib")]
 
     # ---- counting runs: N per scenario (hooks and asan must agree)
-    asan_table = ASAN_QUICK if quick else ASAN_THOROUGH
+    asan_table = dict(ASAN_QUICK if quick else ASAN_THOROUGH)
+    for n in scen:
+        if n.startswith("rtfail-"):
+            asan_table[n] = 331 if quick else 11
 
     def count(exe_, tag, keep=False):
         ns = {n: (None, None) for n in scen}
@@ -464,6 +520,13 @@ def run(res, tier, seed):
     counts_keep = count(exe, "hooks-keepfreed", keep=True)
     res.notes["t_count_s"] = round(time.time() - t0, 1)
     res.notes["requests_per_scenario"] = {n: counts[n][0] for n in scen}
+    sites = {}
+    for n in scen:
+        if n.startswith("rtfail-") and counts[n][1]:
+            r = [e for e in vlib.read_ndjson(counts[n][1]) if e.get("e") == "ApiReturn" and e.get("api") == "transform"]
+            sites[n] = (r[0]["status"] + ": " + r[0].get("msg", "")[:70]) if r else "?"
+    res.notes["rtfail_sites"] = sites
+    res.notes["rtfail_not_failing"] = sorted(n for n, v in sites.items() if not v.startswith("error"))
 
     # ---- the sweep plan
     def ks_for(name, n, build):
@@ -479,7 +542,9 @@ def run(res, tier, seed):
         elif name.startswith("hist-"):
             stride = 0 if quick else 29            # histories: balance check (k = 0) in quick, sampled failures in thorough
         elif quick and full_in.get(name) != "quick":
-            stride = QUICK_STRIDE.get(name, 0)
+            stride = RTFAIL_STRIDE_QUICK if name.startswith("rtfail-") else QUICK_STRIDE.get(name, 0)
+        elif name.startswith("rtwarn-"):
+            stride = 7
         else:
             stride = 1
         if not stride:
@@ -640,6 +705,8 @@ def replay(path):
         build = events[0].get("build", "hooks")
         mode = "inited" if events[1].get("procInit", True) else "raw"
         exe = vlib.build_harness("c19", build, **HFLAGS)
+        bdir = os.path.dirname(exe)
+        LIB_DIRS[:] = [os.path.join(bdir, "src", "xalanc"), os.path.join(bdir, "src", "xalanc", "Utils", "XalanMsgLib")]
         paths = run_cases(exe, [c], wd, "replay", mode, 300)
         rej, _ = validate_files(paths, "replay", wd, shards=1)
         evs = vlib.read_ndjson(paths[0])
